@@ -230,9 +230,22 @@ func instanceStarts(c Comp, dtstart int64) ([]int64, error) {
 	if step == 0 || count < 1 || interval < 1 {
 		return nil, fmt.Errorf("reference needs FREQ and COUNT>=1")
 	}
+	// EXDATE: occurrences that are taken out again (values of the same kind as DTSTART)
+	ex := map[int64]bool{}
+	for _, p := range c.props("EXDATE") {
+		for _, v := range strings.Split(p.Value, ",") {
+			t, _, err := parseInstant(Prop{Name: "EXDATE", Value: v})
+			if err != nil {
+				return nil, err
+			}
+			ex[t] = true
+		}
+	}
 	var l []int64
 	for k := int64(0); k < count; k++ {
-		l = append(l, dtstart+k*interval*step)
+		if t := dtstart + k*interval*step; !ex[t] {
+			l = append(l, t)
+		}
 	}
 	return l, nil
 }
